@@ -114,6 +114,9 @@ def st_case(draw, tier, p_restricted=0, p_mat=1, p8=True):
         if draw(st.integers(0, 9)) < p_mat:
             node = ("mat", base, f"m{counter}")
             counter += 1
+        elif draw(st.integers(0, 11)) == 0 and base[0] != "mark":
+            # a user-defined marker relation (documented extension point) somewhere downstream of the transfer
+            node = ("mark", base)
         else:
             node = draw(st_unary_node(base, cols, universe, UNARY, cfg))
         if node is not None:
